@@ -44,6 +44,7 @@ structure DSess where
   names     : List SId := []        -- stream ids in order of first appearance: printed name of `names[i]` is t(i+1)
   reqIds    : List ReqId := []      -- every request id ever POSTed on this session (to enumerate `requestStreams`)
   subscribed : Bool := false        -- `resources/subscribe` was answered: entitled to `resources/updated`
+  clientGone : Bool := false        -- stateless: the client dropped the POST (`cut`) before the server released it
   direct    : Bool := false         -- the application hands the session's requests to `StreamableServerTransport.ServeHTTP`
                                     -- itself (no `StreamableHTTPHandler`): no session table (no 404), no DELETE (405), and
                                     -- the request context carries no protocol version (treated as 2025-03-26)
@@ -299,7 +300,19 @@ def settle (d : DState) (s : DSess) : DState × DSess :=
     if s.stateless && !s.closing then
       -- the single POST exchange is exchange 0
       match s.conn.exs[0]? with
-      | some e => if e.ended then s := { s with closing := true }
+      | some e => if e.ended then
+          s := { s with closing := true }
+          -- `serveEphemeral` (/repo 196d72e, F47): when `transport.ServeHTTP` has returned and the client is still there
+          -- (the server released the exchange itself: `CloseSSEStream`), the session's input is ended and the session
+          -- drained before it is closed: the jsonrpc2 reader sees EOF, the handlers still in flight are cancelled, and
+          -- their error responses pass the shutdown gate and reach `Write` (request order: the harness lets cancelled
+          -- handlers return one at a time) — stored on the request's own stream, which completes.  When the client has
+          -- gone away (`cut`) the session is closed as before: `Close` waits for the handlers.
+          if !s.clientGone then
+            for r in sortNat s.parked do
+              let q := applyLabels d s [.write (.resp r s!"R.{r}.err0") (some r) s.newProto]
+              d := q.1; s := q.2.1
+            s := { s with parked := [] }
       | none => pure ()
     if s.closing && s.parked.isEmpty && !s.conn.isDone then
       let r := applyLabels d s [.end]
@@ -548,6 +561,7 @@ def modelOp (d : DState) (toks : List String) : Option OpOut :=
         if ((s.conn.exs[ex]?).map (·.ended)).getD true then { d := d, snaps := [n] } else
         -- subscriptions/listen: the request's cancellation is propagated to the handler, which returns
         let s := if s.listenS then { s with parked := [] } else s
+        let s := if s.stateless then { s with clientGone := true } else s
         let (d1, s1, _) := applyLabels d s [.cut ex]
         let (d2, s2) := settle d1 s1
         { d := putSess d2 s2, snaps := [n] }
@@ -681,6 +695,9 @@ def provOf (p : String) : Mon.Prov String :=
     | none => .other
   | ["R", id, "plain"] => match id.toNat? with      -- the answer to `plain` (resources/subscribe): known by its id only
     | some i => .initResp i
+    | none => .other
+  | ["R", id, "err0"] => match id.toNat? with       -- the error response of a handler the closing session cancelled
+    | some i => .initResp i                         -- (`serveEphemeral` drains a sessionless session): known by its id only
     | none => .other
   | ["F", s, r, x, hb, _] => .fanout s (r.toNat?.getD 0) (parseX x) (hb == "h")
   | ["R", id, s, r, x] => match id.toNat?, r.toNat? with
